@@ -185,7 +185,7 @@ def merge_json(results, js, solver_default):
     cb = {d["harness_id"]: d for d in js.get("cbmc", [])}
     for name, h in results.items():
         if name in cb:
-            h.stats = cb[name].get("cbmc_stats", {})
+            h.stats = cb[name].get("cbmc_stats") or {}
             h.solver = cb[name].get("configuration", {}).get("solver", solver_default)
         if name in det:
             pd = det[name]["property_details"]
@@ -290,7 +290,7 @@ def replay(prop, feature, h, solver, target_dir, timeout_s):
     shutil.copy(os.path.join(KANI_DIR, "Cargo.lock"), os.path.join(crate, "Cargo.lock"))
     tdir = os.path.join(crate, "target")
     cmd = ["cargo", "kani", "--features", feature, "--harness", h.name, "--exact",
-           "-Z", "concrete-playback", "--concrete-playback=inplace", "--output-format", "terse",
+           "-Z", "concrete-playback", "--concrete-playback=print", "--output-format", "terse",
            "-Z", "unstable-options", "--harness-timeout", "%ds" % timeout_s]
     if solver:
         cmd += ["--solver", solver]
@@ -298,22 +298,28 @@ def replay(prop, feature, h, solver, target_dir, timeout_s):
     sh = "ulimit -v %d; exec %s" % (MEM_KB, " ".join("'%s'" % c for c in cmd))
     p = subprocess.run(["bash", "-c", sh], cwd=crate, env=kani_env(), stdout=subprocess.PIPE,
                        stderr=subprocess.STDOUT, text=True)
-    gen = subprocess.run(["grep", "-rl", "kani_concrete_playback", os.path.join(crate, "src")],
-                         stdout=subprocess.PIPE, text=True).stdout.split()
     logtxt = p.stdout[-3000:]
-    if not gen:
-        open(os.path.join(rdir, "replay.log"), "w").write(logtxt)
-        return rdir, False, "no playback test generated"
+    # harness fns are `pub`, so a generated test can name them by full path from a sibling module
+    # (inplace insertion does not work for macro-generated harnesses: it lands in the macro body).
+    full = "crate::" + h.name
+    blocks = re.findall(r"(?s)((?:[ \t]*///[^\n]*\n)*\s*#\[test\]\s*fn (kani_concrete_playback_\w+)\(\) \{.*?"
+                        r"concrete_playback_run\(concrete_vals, \w+\);\s*\})", p.stdout)
     tests = []
-    for g in gen:
-        for m in re.finditer(r"fn (kani_concrete_playback_\w+)", open(g).read()):
-            tests.append(m.group(1))
-    # extract generated tests for the record
-    with open(os.path.join(rdir, "playback_tests.rs"), "w") as fo:
-        for g in gen:
-            src = open(g).read()
-            for m in re.finditer(r"(?s)(/// Test generated for harness.*?\n}\n)", src):
-                fo.write(m.group(1) + "\n")
+    with open(os.path.join(crate, "src", "playback_gen.rs"), "w") as fo:
+        fo.write("// generated by bin/check from Kani's concrete playback of %s\n" % h.name)
+        for code, tname in blocks:
+            if "Check for `cover`" in code:
+                continue  # only failed assertions are replayed
+            code = re.sub(r"concrete_playback_run\(concrete_vals, \w+\)", "concrete_playback_run(concrete_vals, %s)" % full, code)
+            fo.write(code + "\n\n")
+            tests.append(tname)
+    with open(os.path.join(crate, "src", "lib.rs"), "a") as fo:
+        fo.write("\n#[cfg(test)]\nmod playback_gen;\n")
+    shutil.copy(os.path.join(crate, "src", "playback_gen.rs"), os.path.join(rdir, "playback_tests.rs"))
+    if not tests:
+        open(os.path.join(rdir, "replay.log"), "w").write(logtxt)
+        shutil.rmtree(tdir, ignore_errors=True)
+        return rdir, False, "no playback test generated for a failed assertion"
     reproduced = False
     outs = []
     # `cargo kani playback` has no --release: the release semantics (no overflow checks, no debug
